@@ -302,12 +302,23 @@ Section Load.
       apply declare_ok in E. apply same_core_body. tauto.
     - destruct (find_element st c) as [v|]; [|discriminate].
       destruct v; try discriminate.
-      destruct (declare st x (VObj cn methods) false None) as [st0|] eqn:Ed; [|discriminate].
+      (* the constructor, if the type has one *)
+      match type of H with (let '(_, _) := ?X in _) = _ => destruct X as [rc stc] eqn:Ec end.
+      destruct rc; try (inversion H; fail).
+      assert (Bc : body_rel st stc).
+      { destruct (assoc_find methods CTOR) as [cbody|]; [|inversion Ec; subst; apply body_rel_refl].
+        destruct (find_with_module st cn) as [[v0 hm0]|]; [|discriminate].
+        destruct (in_exec_block (push_frame st hm0) (Some (VObj cn methods)) (fun s => callee s cbody)) as [r0 st20] eqn:E0.
+        destruct r0; inversion Ec; subst. eapply call_frame_ok; eauto. }
+      assert (Hcsc : cs_top stc).
+      { unfold cs_top in *. destruct Bc as (_&_&C3&C4&_). rewrite C3, C4. auto. }
+      destruct (declare stc x (VObj cn methods) false None) as [st0|] eqn:Ed; [|discriminate].
       apply declare_ok in Ed. destruct Ed as (C0 & _).
       destruct (find_with_module st0 cn) as [[v hm]|]; [|discriminate].
       destruct (assoc_find methods m) as [body|]; [|discriminate].
       destruct (in_exec_block (push_frame st0 hm) (Some (VObj cn methods)) (fun s => callee s body)) as [r st2] eqn:E.
       destruct r; inversion H; subst.
+      eapply body_rel_trans; [exact Bc|].
       eapply body_rel_trans; [apply same_core_body; exact C0|].
       eapply call_frame_ok; eauto.
       unfold cs_top in *. destruct C0 as (_&_&C3&C4&_). rewrite C3, C4. auto.
